@@ -50,8 +50,19 @@ def units():
     return json.load(open(p))
 
 
+def unit_props(u):
+    """declared props plus every property a clause of the unit is tagged with (`// [C07] ..` in the template, the
+    contracts, the inserted annotations): a tagged clause of a unit that is never run for that property would be dead"""
+    txt = ""
+    tp = VERIF + "/contracts/verus/" + u["template"]
+    if os.path.exists(tp):
+        txt += open(tp).read()
+    txt += json.dumps(u.get("extract", []))
+    return sorted(set(u["props"]) | set(re.findall(r"\[(C\d{2})\]", txt)))
+
+
 def select_units(prop, tier):
-    return [u for u in units() if prop in u["props"] and (tier == "thorough" or u.get("tier", "quick") == "quick")]
+    return [u for u in units() if prop in unit_props(u) and (tier == "thorough" or u.get("tier", "quick") == "quick")]
 
 
 def match_brace(text, start):
